@@ -131,6 +131,13 @@ Theorem C03_frame_arithmetic_matches_source :
 Proof. exact (conj k_codon_offset_complement_eq (conj k_cds_ext_3_length_eq (conj k_exon_cds_prefix_length_eq (conj k_exon_cds_suffix_length_eq
   (conj k_exon_next_exon_frame_eq k_get_range_cds_exts_eq))))). Qed.
 
+(* the codon of an exon (Exon.get_codon / get_codon_at: origin from the frame, the triplet of that index, clamped to the exon, 1-3 bases),
+   translated from exon.py on every run, is the model's - for any exon with 0 <= start <= end *)
+Theorem C03_exon_codon_matches_source : forall e s,
+  range_valid (x_range e) = true ->
+  (forall ci, k_exon_get_codon e s ci = exon_get_codon s e ci) /\ (forall pos, k_exon_get_codon_at e s pos = exon_get_codon_at s e pos).
+Proof. intros e s V. split; [intros ci; exact (k_exon_get_codon_eq e s ci V) | intros pos; exact (k_exon_get_codon_at_eq e s pos V)]. Qed.
+
 (* the clamping of a codon to its exon (UIntRange.overlaps / intersect, used by Exon.get_codon and the transcript walk), translated
    from uint_range.py on every run, is the model's *)
 Theorem C03_range_clamp_matches_source : forall a b,
@@ -190,3 +197,4 @@ Print Assumptions C03_cdna_noncoding_region.
 Print Assumptions C03_gtf_exons_plus.
 Print Assumptions C03_gtf_exons_minus.
 Print Assumptions C03_gtf_example.
+Print Assumptions C03_exon_codon_matches_source.
